@@ -28,14 +28,22 @@ ASSUMPTIONS = ["modelled fragment: scalar kinds, enums (open/closed), message-ty
 
 CHKS = ["opt_chk_strict", "opt_chk_lenient", "opt_chk_unlinked", "spec_chk", "spec_chk_known"]
 DEFS = """
-(* a disagreement with the specification that is explained by a field without presence being set twice *)
+(* A disagreement with the specification is attributed to fields without presence when the implementation
+   behaves exactly like the mirror model and the mirror model agrees with the specification once every field
+   of the schema is given presence. *)
+Definition explicit_field (f : field) : field :=
+  mkField (fname f) (fnum f) (fkind f) (frep f) (foneof f) false (ftargets f).
+Definition explicit_schema (sch : schema) : schema :=
+  mkSchema (map (fun d => mkMsg (map explicit_field (mfields d))) (smsgs sch)) (senums sch)
+           (map (fun x => mkExt (xname x) (xextendee x) (explicit_field (xfield x))) (sexts sch)).
 Definition spec_chk_known (c : opt_case) : bool :=
   spec_chk c ||
   match c with
   | OC sch tg T stmts os _ _ =>
-    negb (schema_explicit sch) &&
-    match protoc_interpret sch tg T [] stmts, os with
-    | Err EAlreadySet, ObsOk _ _ => true
+    negb (schema_explicit sch) && opt_chk_strict c &&
+    match interpret_strict (explicit_schema sch) tg T [] stmts, protoc_interpret sch tg T [] stmts with
+    | Err _, Err _ => true
+    | Ok (m, _), Ok m' => mval_eqb m m'
     | _, _ => false
     end
   end.
